@@ -12,6 +12,8 @@ The tree is the one the model of `Unmarshal` builds (`Proofs/DecodeComplete.unma
 (`Props/C13`, ReadFrame), and a filled cell holds what the first read computed.
 Not proved here: `Unpack` as a whole (its recursion threads the cache-filling heap through all children).
 -/
+import Ajson.Proofs.LazyParsed
+import Ajson.Proofs.Lazy2
 import Ajson.Proofs.TreeFacts
 import Ajson.Model.Read
 
@@ -113,6 +115,42 @@ theorem C02_nil_unparsed (h : Heap) :
     (h.getBool none).2 = .err (errT .unparsed) ∧ h.getNull none = .err (errT .unparsed) ∧
     (h.getArray none).2 = .err (errT .unparsed) ∧ (h.getObject none).2 = .err (errT .unparsed) := by
   simp [Heap.getNumeric, Heap.getString, Heap.getBool, Heap.getNull, Heap.getArray, Heap.getObject]
+
+/-! ### laziness is invisible
+
+`ReadStep h h'` (Proofs/Lazy) is the relation "h' results from h by reads": nothing but value cells changed, and a coherent heap
+(every filled cell holds what the node's fields imply) stays coherent. It is reflexive and transitive, and every read is a step:
+`getValue`, the six typed getters, `Unpack` of any node with any fuel, `Marshal`, `String`, `Eq`/`Neq`, `Le`/`Leq`/`Ge`/`Geq`. -/
+
+/-- every read is a `ReadStep`, and steps compose -/
+theorem C02_reads_are_steps (h : Heap) (n : Option Id) (m : Id) (fuel : Nat) :
+    ReadStep h (h.getNumeric n).1 ∧ ReadStep h (h.getString n).1 ∧ ReadStep h (h.getBool n).1 ∧
+    ReadStep h (h.getArray n).1 ∧ ReadStep h (h.getObject n).1 ∧ ReadStep h (h.unpack fuel m).1 ∧ ReadStep h (h.getValue m).1 :=
+  ⟨getNumeric_read h n, getString_read h n, getBool_read h n, getArray_read h n, getObject_read h n, unpack_read fuel h m, getValue_read h m⟩
+
+/-- … and so are Marshal, String, Eq, Neq and the four ordering comparisons (any fuel, any float formatter) -/
+theorem C02_more_reads_are_steps (fmtF : UInt64 → Option Bytes) (h : Heap) (a b : Option Id) (m : Id) (fuel : Nat) (o : Ord4) :
+    ReadStep h (h.marshal fmtF fuel m).1 ∧ ReadStep h (h.toStringN fmtF m).1 ∧ ReadStep h (h.eq a b).1 ∧ ReadStep h (h.neq a b).1 ∧
+    ReadStep h (h.cmp o a b).1 :=
+  ⟨marshal_read fmtF fuel h m, toStringN_read fmtF h m, eq_read h a b, neq_read h a b, cmp_read o h a b⟩
+
+/-- **any node may be read at any time, in any order, any number of times, with the same answer**: for every accepted text, after
+ANY sequence of reads of any nodes (a `ReadStep` from the parsed heap), every typed getter gives every node exactly the answer it
+gives on the freshly parsed heap — which `C02_number` / `C02_string` / `C02_bool` identify with what the text denotes -/
+theorem C02_laziness_invisible (data : Bytes) (v : STree) (hp : parseRef data = .ok v) :
+    ∃ H, unmarshal data = .ok (H, 0) ∧ ∀ H' : Heap, ReadStep H H' → ∀ n : Id,
+      (H'.getNumeric (some n)).2 = (H.getNumeric (some n)).2 ∧
+      (H'.getString (some n)).2 = (H.getString (some n)).2 ∧
+      (H'.getBool (some n)).2 = (H.getBool (some n)).2 := by
+  obtain ⟨H, hu, _, hc⟩ := coherent_unmarshal data v hp
+  exact ⟨H, hu, fun H' r n => lazy_invisible hc r n⟩
+
+/-- e.g. reading a number twice, with another read in between, gives the same answer (also when that answer is the range error) -/
+example (data : Bytes) (v : STree) (hp : parseRef data = .ok v) :
+    ∃ H, unmarshal data = .ok (H, 0) ∧ ∀ n m : Id,
+      (((H.getNumeric (some n)).1.unpack 100 m).1.getNumeric (some n)).2 = (H.getNumeric (some n)).2 := by
+  obtain ⟨H, hu, hl⟩ := C02_laziness_invisible data v hp
+  exact ⟨H, hu, fun n m => (hl _ ((getNumeric_read H (some n)).trans (unpack_read 100 _ m)) n).1⟩
 
 /-- a typed getter on a node of another type reports a wrong-type error and does not touch the heap -/
 theorem C02_wrong_type (h : Heap) (n : Id) :
